@@ -194,6 +194,77 @@ REFUSED_INPUTS = [
 ]
 
 
+class _LazyRow(list):
+    """a row of values that is computed when it is first read: reading it runs another, complete encode on the SAME encoder"""
+    trigger = None
+
+    def _fire(self):
+        t, self.trigger = self.trigger, None
+        if t is not None:
+            t()
+
+    def __getitem__(self, i):
+        self._fire()
+        return list.__getitem__(self, i)
+
+    def __iter__(self):
+        self._fire()
+        return list.__iter__(self)
+
+
+def reentrant_encode(ctx, enc, a, b):
+    """Two encodes under way on one Encoder: while message A is being encoded (object form), reading one of its value rows starts and
+    finishes the encode of message B on the same Encoder object.  Both results are what a fresh Encoder gives for A and for B
+    alone (which check_case compares with the independently constructed bytes)."""
+    from pybufrkit.encoder import Encoder
+    if too_wide(a) or too_wide(b):
+        return
+    try:
+        fja, fjb = jsonable(R.flat_json(a, user_values(a, ctx.rng))), jsonable(R.flat_json(b, user_values(b, ctx.rng)))
+        ta, tb = json.dumps(fja), json.dumps(fjb)
+        want_a, want_b = Encoder().process(ta).serialized_bytes, Encoder().process(tb).serialized_bytes
+    except Exception:
+        ctx.count('reentrant_setup_skipped')
+        return
+    obj = json.loads(ta)
+    rows = obj[-2][-1]
+    if not rows or not isinstance(rows, list) or not isinstance(rows[0], list):
+        return
+    inner = {}
+    k = ctx.rng.randrange(len(rows))
+    lazy = _LazyRow(rows[k])
+
+    def run_inner():
+        try:
+            inner['out'] = enc.process(tb).serialized_bytes
+        except Exception as e:
+            inner['exc'] = e
+    lazy.trigger = run_inner
+    rows[k] = lazy
+    spec = dict(origin='reentrant', ids_outer=a.ids, ids_inner=b.ids, compressed_outer=a.compressed, compressed_inner=b.compressed, lazy_row=k,
+                flat_json_outer=fja, flat_json_inner=fjb)
+    mode = ('c' if a.compressed else 'u') + ('c' if b.compressed else 'u')
+    try:
+        out = enc.process(obj).serialized_bytes
+    except Exception as e:
+        ctx.violate('encode/reentrant/outer-raises:%s/%s' % (type(e).__name__, mode), 'an encode during which another encode ran on the same Encoder raised %r' % (e,), spec, exc=e)
+        return
+    if 'out' not in inner and 'exc' not in inner:
+        ctx.count('reentrant_row_never_read')
+        return
+    ctx.count('reentrant_encodes')
+    ctx.evaluated(('reentrant', ta, tb, k), True)
+    if 'exc' in inner:
+        ctx.violate('encode/reentrant/inner-raises:%s/%s' % (type(inner['exc']).__name__, mode), 'the encode started while another one was under way on the same Encoder raised %r'
+                    % (inner['exc'],), spec, exc=inner['exc'])
+    elif inner['out'] != want_b:
+        ctx.violate('encode/reentrant/inner-differs/%s' % mode, 'the message encoded while another encode was under way on the same Encoder differs from what a fresh Encoder writes', spec,
+                    expected=want_b.hex(), observed=inner['out'].hex())
+    elif out != want_a:
+        ctx.violate('encode/reentrant/outer-differs/%s' % mode, 'the message during whose encoding another encode ran on the same Encoder differs from what a fresh Encoder writes', spec,
+                    expected=want_a.hex(), observed=out.hex())
+
+
 def provoke_refusal(ctx, *encoders):
     """the encoders are long-lived: what one of them refused must leave no trace in what it encodes next"""
     inp = ctx.rng.choice(REFUSED_INPUTS)
@@ -245,6 +316,7 @@ def run(ctx):
             check_case(ctx, enc, m, 'table-pair', form)
             check_case(ctx, encc, m, 'table-pair', form, label='compiling-encoder')
     n = 0
+    prev_case = None
     while n < QUOTA[ctx.tier] and ctx.more():
         n += 1
         c = cases.random_case(ctx)
@@ -253,6 +325,9 @@ def run(ctx):
         if n % 7 == 0:
             provoke_refusal(ctx, enc, encc)
         check_case(ctx, enc, c[0], 'random')
+        if n % 4 == 1 and prev_case is not None:
+            reentrant_encode(ctx, enc, c[0], prev_case)
+        prev_case = c[0]
         if n % 3 == 0 and scoped(c[0].ids, cases.tables(c[1])[1]):
             ctx.count('compiling_encoder_cases')
             check_case(ctx, encc, c[0], 'random', label='compiling-encoder')
